@@ -190,6 +190,8 @@ def render(doc):
         for c in b["comps"]:
             y.append("        %s:" % c["name"])
             y.append("            shape: %s" % c["shape"])
+            if c["shape"] == "Group":
+                continue
             y.append("            material: %s" % c["mat"])
             if c["iso"]:
                 y.append("            isotopics: %s" % c["iso"])
@@ -200,6 +202,24 @@ def render(doc):
                     y.append("            %s: %s" % (d, _dim_text(d, v)))
             if c["lat"]:
                 y.append("            latticeIDs: [%s]" % ", ".join('"%s"' % i for i in c["lat"]))
+    if doc.get("comps"):
+        y.append("components:")
+        for c in doc["comps"]:
+            y.append("    %s:" % c["name"])
+            y.append("        shape: %s" % c["shape"])
+            y.append("        material: %s" % c["mat"])
+            y.append("        Tinput: %s.0" % c["ti"])
+            y.append("        Thot: %s.0" % c["th"])
+            for d, v in sorted(_obj(c["dims"]).items()):
+                if v["k"] != "none":
+                    y.append("        %s: %s" % (d, _dim_text(d, v)))
+    if doc.get("groups"):
+        y.append("component groups:")
+        for g in doc["groups"]:
+            y.append("    %s:" % g["name"])
+            for name, mult in g["members"]:
+                y.append("        %s:" % name)
+                y.append("            mult: %s" % mult)
     y.append("assemblies:")
     for a in doc["asms"]:
         y.append("    %s:" % " ".join(a["name"]))
@@ -210,7 +230,8 @@ def render(doc):
         y.append("        xs types: [%s]" % ", ".join(a["xs"]))
         if a["mods"]:
             y.append("        material modifications:")
-            vals = lambda m: "[%s]" % ", ".join(num(v) if v else "''" for v in m["vals"])  # noqa: E731
+            one = lambda v: "''" if not v else str(v[0]) if len(v) == 1 else num(v)  # noqa: E731  blank | name | number
+            vals = lambda m: "[%s]" % ", ".join(one(v) for v in m["vals"])  # noqa: E731
             for m in a["mods"]:
                 if m["scope"] == "":
                     y.append("            %s: %s" % (m["key"], vals(m)))
@@ -307,6 +328,10 @@ def project_composition(c):
     out = {"nd": nd, "md": md, "rho": rho, "nuclides": sorted(nd),
            "nf": {n: v / ntot for n, v in nd.items()} if ntot else {},
            "mf": {n: v / rho for n, v in md.items()} if rho else {}}
+    hm = {n: v for n, v in md.items() if nuclideBases.byName[n].isHeavyMetal()}
+    if hm:
+        out["hmf"] = {n: v / sum(hm.values()) for n, v in hm.items()}
+        out["hmnuclides"] = sorted(hm)
     u5, u8 = md.get("U235", 0.0), md.get("U238", 0.0)
     if u5 + u8 > 0:
         out["enr"] = u5 / (u5 + u8)
@@ -317,6 +342,10 @@ def project_composition(c):
 
 def project_component(c):
     from armi.reactor import grids
+    from armi.reactor.components import Component
+
+    if not isinstance(c, Component):  # a component group: a composite of its members
+        return {"name": c.name, "shape": "Group", "members": {m.name: project_component(m) for m in c}, "nmembers": len(c)}
     from armi.reactor.components.component import _DimensionLink
 
     dims, links = {}, []
